@@ -307,6 +307,12 @@ class Equalizer(object):
         """
         Creates and start new player process, ready to take playback tasks
         """
+        # Every new process gets its own queues, a late answer of a previous (timed out and killed) process or a task
+        # it never took must not be mistaken for the result / task of a later recording
+        self._compare_tasks.close()
+        self._compare_results.close()
+        self._compare_tasks = mp.Queue()
+        self._compare_results = mp.Queue()
         self._compare_process = mp.Process(
             target=self._playback_process_target, name='Playback runner')
         self._compare_process.start()
